@@ -108,14 +108,50 @@ def failing_hook_scenario(rng, i):
     return {"id": f"c03-fh-{i}", "config": {"keep": rng.chance(2, 3), "dump_each": True}, "models": [w], "ops": ops, "exprs": {}, "features": ["hooks", "failing-hook"]}
 
 
+def late_hook_error_scenario(rng, i):
+    """the act of an `on: completed` hook stays open (an interrupt) after its owner has ended — by next, skip, submit or remove — and is
+    answered with `error` while the process is still alive: the owner's ending stays what it was"""
+    hk = {"id": "hk", "uses": gen.IRQ, "key": "khk", "on": "completed"}
+    a1 = {"id": "a1", "uses": gen.IRQ, "key": "ka1", "setup": [hk]}
+    if rng.chance(1, 3):
+        a1["catches"] = [{"steps": [{"id": "h1", "acts": [{"id": "h1a", "uses": gen.IRQ, "key": "kh1a"}]}]}]
+    w = {"id": "m1", "steps": [{"id": "s1", "acts": [a1]}, {"id": "s2", "acts": [{"id": "a2", "uses": gen.IRQ, "key": "ka2"}]}]}
+    how = rng.pick(["skip", "submit", "remove", "next", "skip", "submit"])
+    ops = [["deploy", 0], ["start", "m1", {"pid": "p1", "x": 0, "y": 0}], ["runall"],
+           ["act", how, "p1", {"nid": "a1", "k": -1}, {}], ["runall", rng.pick(["fifo", "lifo"]), rng.below(1 << 30)],
+           ["act", "error", "p1", {"nid": "hk", "k": -1}, {"ecode": "e1", "message": "late"}], ["runall", rng.pick(["fifo", "lifo"]), rng.below(1 << 30)]]
+    for _ in range(4):
+        ops.append(["act", "next", "p1", {"open": 0}, {}])
+        ops.append(["runall"])
+    return {"id": f"c03-lhe-{i}", "config": {"keep": True, "dump_each": True}, "models": [w], "ops": ops, "exprs": {}, "features": ["hooks", "late-hook-error"]}
+
+
+def timeout_after_end_scenario(rng, i):
+    """a timeout rule of a task that has ended — by next, skip, submit or remove — before its limit: the clock passes the limit while the
+    process is still alive, and later ends; nothing is started beneath the ended task, nothing is open behind the terminal event"""
+    rule = {"on": "2s", "steps": [{"id": "t1", "acts": [{"id": "t1a", "uses": gen.IRQ, "key": "kt1a"}]}]}
+    a1 = {"id": "a1", "uses": gen.IRQ, "key": "ka1"}
+    s1 = {"id": "s1", "acts": [a1]}
+    (a1 if rng.chance(2, 3) else s1)["timeout"] = [rule]
+    w = {"id": "m1", "steps": [s1, {"id": "s2", "acts": [{"id": "a2", "uses": gen.IRQ, "key": "ka2"}]}]}
+    how = rng.pick(["skip", "submit", "remove", "next", "skip", "submit"])
+    ops = [["deploy", 0], ["clock", rng.below(900)], ["start", "m1", {"pid": "p1", "x": 0, "y": 0}], ["runall"],
+           ["tick", rng.pick([100, 900, 1500])], ["runall"],
+           ["act", how, "p1", {"nid": "a1", "k": -1}, {}], ["runall"],
+           ["tick", rng.pick([2000, 2500, 60000])], ["runall"],
+           ["act", "next", "p1", {"nid": "a2", "k": -1}, {}], ["runall"],
+           ["tick", 5000], ["runall"]]
+    return {"id": f"c03-tae-{i}", "config": {"keep": True, "dump_each": True}, "models": [w], "ops": ops, "exprs": {}, "features": ["timeout", "timeout-after-end"]}
+
+
 def gen_scenario(seed, i):
     if i == 0:
         return acting_act_scenario()
     rng = Rng(seed * 179424673 + i)
     if i % 8 == 1:
-        return failing_hook_scenario(rng, i)
+        return failing_hook_scenario(rng, i) if i % 16 == 1 else late_hook_error_scenario(rng, i)
     if i % 8 == 5:
-        return queued_scenario(rng, i)
+        return queued_scenario(rng, i) if i % 16 == 5 else timeout_after_end_scenario(rng, i)
     if i % 8 == 7:
         return handler_family(rng, i)
     g = gen.WfGen(rng.fork("wf"), depth=rng.pick([1, 2, 2]), max_steps=3, max_branches=3, max_acts=3, p_if=10, p_branches=60,
